@@ -220,6 +220,9 @@ var jsScripts = []struct {
 	// declarations and assignments inside nested statements: hoisted, or implicit, globals
 	{"for (var i = 0; i < a.length; i++) { if (a.charAt(i) == 'x' || a.charAt(i) == 'a') { var hit = i } } typeof hit + ':' + a.length", 1},
 	{"if (a.length > 3) { g9 = a.length } typeof g9 + ':' + a.length", 1},
+	// a result JSON cannot express (NaN inside an array, unless the field is numeric): the record
+	// fails in the very last step of a Read, the encoding of the result
+	{"[parseInt(a), a.length]", 1},
 }
 
 // leaf generates a declaration that yields a scalar, evaluated at a node whose field xpaths are fs.
@@ -298,7 +301,17 @@ func (g *declGen) leaf(fs []string, intField string) D {
 		// a string argument, the name of a javascript argument, the value of an xpath_dynamic
 		g.usesJS = true
 		cyc := cf("javascript", D{"const": "(function(){ var o = {k: a}; o.self = o; return o })()"}, D{"const": "a"}, D{"xpath": pick()})
-		switch g.t.Intn("decl.cyclic.where", 7) {
+		switch g.t.Intn("decl.cyclic.where", 9) {
+		case 7:
+			// a script that leaves an accessor named like its own argument on the global object, invisible
+			// to an enumeration, impossible to delete: the NEXT run of the script meets it while its
+			// arguments are being set up
+			return cf("javascript", D{"const": "Object.defineProperty(this, 'a', {get: function() { throw new Error('trap') }, enumerable: false, configurable: false}); 1"}, D{"const": "a"}, D{"xpath": pick()})
+		case 8:
+			// a script result that is neither an array nor an object for Go (a Map is exported as a
+			// slice of pairs), handed on to another script that modifies it
+			mapResult := cf("javascript", D{"const": "new Map([['k', a], ['l', a]])"}, D{"const": "a"}, D{"xpath": pick()})
+			return cf("javascript", D{"const": "m[0].push('x'); m.length"}, D{"const": "m"}, mapResult)
 		case 0:
 			return cf("upper", cyc)
 		case 1:
